@@ -74,6 +74,13 @@ Theorem C14_path_inside_document : forall num nadd nsub nmul ndiv nmod neqb nltb
   run num nadd nsub nmul ndiv nmod neqb nltb nleb nzero of_nat of_digits doc sts roots = XOk l ->
   Forall (fun t => Sub t doc) roots -> Forall (fun x => Sub x doc) l.
 Proof. exact run_inside. Qed.
+(* the path //name evaluated from an element is the tag-name search of C06 over that element and its descendants, in document
+   order (uids unique, the C04 invariant) *)
+Theorem C14_descendant_path_is_search : forall num nadd nsub nmul ndiv nmod neqb nltb nleb nzero of_nat of_digits doc nm root,
+  NoDup (map tuid (root :: descendants root)) ->
+  run num nadd nsub nmul ndiv nmod neqb nltb nleb nzero of_nat of_digits doc [(true, None, nm, [])] [root]
+  = XOk (from_root_search (name_ok nm) root true).
+Proof. exact descendant_path_is_from_root. Qed.
 (* predicates only filter: a step's predicates never add an element and keep a duplicate-free collection duplicate-free *)
 Theorem C14_predicates_only_filter : forall num nadd nsub nmul ndiv nmod neqb nltb nleb nzero of_nat of_digits doc ps l l',
   apply_preds num nadd nsub nmul ndiv nmod neqb nltb nleb nzero of_nat of_digits doc ps l = XOk l' ->
